@@ -313,3 +313,34 @@ Definition c_tag_encode (entry : N) (name : str) (indent : option nat) (f : fmt)
             | _ => tag_encode_contents (codec_enc_char k) [] name indent f t
             end)
   end.
+
+(* the codecs for which an encoder is modelled *)
+Definition encoder (k : codec) : bool :=
+  match k with Ascii | Latin1 | Cp1252 | Utf8 => true | _ => false end.
+
+(* ------------------------------------------------------------------ *)
+(* 7. UTF-16 / UTF-32 encoders (strict), and the two codecs that write a byte-order mark: "utf-16" / "utf-32" =   *)
+(*    the mark (Gen/T_Codecs.v, read from the interpreter) followed by the little-endian form                    *)
+(* ------------------------------------------------------------------ *)
+Definition bytes16 (le : bool) (u : N) : list N :=
+  if le then [u mod 256; u / 256] else [u / 256; u mod 256].
+Definition utf16_enc_char (le : bool) (c : N) : option (list N) :=
+  if scalar c then
+    if c <? 65536 then Some (bytes16 le c)
+    else Some (bytes16 le (55296 + (c - 65536) / 1024) ++ bytes16 le (56320 + (c - 65536) mod 1024))
+  else None.
+Definition bytes32 (le : bool) (c : N) : list N :=
+  if le then [c mod 256; (c / 256) mod 256; (c / 65536) mod 256; c / 16777216]
+  else [c / 16777216; (c / 65536) mod 256; (c / 256) mod 256; c mod 256].
+Definition utf32_enc_char (le : bool) (c : N) : option (list N) :=
+  if scalar c then Some (bytes32 le c) else None.
+
+Inductive wide := W16 | W32.
+Definition wide_enc_char (w : wide) : N -> option (list N) :=
+  match w with W16 => utf16_enc_char true | W32 => utf32_enc_char true end.
+Definition wide_bom (w : wide) : list N := match w with W16 => cd_utf16_bom | W32 => cd_utf32_bom end.
+(* str.encode("utf-16" / "utf-32", "xmlcharrefreplace") *)
+Definition wide_encode (w : wide) (s : str) : option (list N) :=
+  str_encode (wide_enc_char w) (wide_bom w) XmlCharRef s.
+(* the decoder and the name strip_byte_order_mark announces for that mark *)
+Definition wide_codec (w : wide) : codec := match w with W16 => Utf16LE | W32 => Utf32LE end.
